@@ -388,6 +388,108 @@ func checkC20(p *core.Program, r *core.Report) {
 			r.OK(R5, "by-value struct loads", "", fmt.Sprintf("%d struct loads examined, none of a lock-bearing type", nload))
 		}
 	}
+	// ---- R8: library objects that are not safe for concurrent use
+	const R8 = "C20.R8 stateful-library-objects-locked"
+	r.Rule(R8, "a field of a shared struct that holds a standard-library object documented as not safe for concurrent use (*math/rand.Rand, bytes.Buffer, strings.Builder, bufio readers/writers, json encoder/decoder, hash states, container lists) has all its method calls under one common mutex: the field itself is never reassigned, so the field rule R1 sees an immutable pointer, but every call mutates the object behind it")
+	{
+		stateful := func(t types.Type) string {
+			if pt, ok := t.Underlying().(*types.Pointer); ok {
+				t = pt.Elem()
+			}
+			n := core.NamedOf(t)
+			if n == nil || n.Obj().Pkg() == nil {
+				return ""
+			}
+			full := n.Obj().Pkg().Path() + "." + n.Obj().Name()
+			switch full {
+			case "math/rand.Rand", "math/rand/v2.Rand", "bytes.Buffer", "strings.Builder", "bufio.Reader", "bufio.Writer", "bufio.ReadWriter", "bufio.Scanner",
+				"encoding/json.Encoder", "encoding/json.Decoder", "container/list.List", "container/ring.Ring", "hash.Hash", "hash.Hash32", "hash.Hash64", "text/tabwriter.Writer":
+				return full
+			}
+			return ""
+		}
+		for _, ss := range sharedStructs {
+			n := p.Named(ss[0], ss[1])
+			if n == nil {
+				continue
+			}
+			st, ok := n.Underlying().(*types.Struct)
+			if !ok {
+				continue
+			}
+			bad := false
+			for i := 0; i < st.NumFields(); i++ {
+				f := st.Field(i)
+				kind := stateful(f.Type())
+				if kind == "" {
+					continue
+				}
+				// method calls whose receiver is (a load of) this field
+				var common core.LockSet
+				var firstUnlocked ssa.Instruction
+				ncalls := 0
+				for _, fn := range fns {
+					core.EachInstr(fn, func(in ssa.Instruction) {
+						c := core.Common(in)
+						if c == nil {
+							return
+						}
+						var recv ssa.Value
+						if c.IsInvoke() {
+							recv = c.Value
+						} else if t := c.StaticCallee(); t != nil && t.Signature.Recv() != nil && len(c.Args) > 0 {
+							recv = c.Args[0]
+						}
+						if recv == nil {
+							return
+						}
+						var fa *ssa.FieldAddr
+						switch x := core.Canon(recv).(type) {
+						case *ssa.FieldAddr:
+							fa = x
+						case *ssa.UnOp:
+							if x.Op == token.MUL {
+								fa, _ = x.X.(*ssa.FieldAddr)
+							}
+						}
+						if fa == nil || core.FieldVar(fa) != f || core.NamedOf(fa.X.Type()) != n {
+							return
+						}
+						ncalls++
+						held := core.LockSet{}
+						for k := range li.Must[in] {
+							if !strings.HasSuffix(k, "#R") {
+								held[k] = true
+							}
+						}
+						if len(held) == 0 && firstUnlocked == nil {
+							firstUnlocked = in
+						}
+						if common == nil {
+							common = held
+						} else {
+							common = common.Intersect(held)
+						}
+					})
+				}
+				key := ss[0] + "." + ss[1] + "." + f.Name() + " (" + kind + ") calls share a mutex"
+				if ncalls > 0 && len(common) == 0 {
+					bad = true
+					pos := ""
+					if firstUnlocked != nil {
+						pos = p.Pos(firstUnlocked.Pos())
+					}
+					r.Fail(R8, key, pos, fmt.Sprintf("%d method call(s) on the %s stored in %s.%s hold no common mutex: the API can be entered from several goroutines (mDNS reports, timers, connection goroutines), and concurrent calls corrupt the object's internal state", ncalls, kind, ss[1], f.Name()))
+				} else {
+					r.OK(R8, key, p.Pos(f.Pos()), fmt.Sprintf("%d call(s), all under %v", ncalls, common))
+				}
+			}
+			if !bad {
+				r.OK(R8, ss[0]+"."+ss[1]+" stateful library fields", p.Pos(n.Obj().Pos()), fmt.Sprintf("%d fields examined", st.NumFields()))
+			}
+		}
+		r.Floor(R8, 8)
+	}
 	// ---- R7: the hand-over that the confinement table relies on
 	const R7 = "C20.R7 published-before-the-pumps-start"
 	r.Rule(R7, "the fields of the websocket connection that are confined by hand-over (dataProcessing, the two channels) are stored before the go statements that start the pumps, in program order of InitDataProcessing / run: a pump started first reads them concurrently with the store")
